@@ -111,7 +111,9 @@ def make_event(e):
         for bi, yi in zip(b, y):
             g += bi * yi
         return float(g)
-    ev.terminal = bool(e["terminal"])
+    # SciPy accepts `terminal` as a bool or as a positive integer count (1.0 counts as 1); the Rust side has terminal_count(k)
+    k = int(e["terminal"])
+    ev.terminal = False if k == 0 else ([True, 1, np.True_, 1.0][e.get("tform", 0) % 4] if k == 1 else k)
     # SciPy reads only the sign of `direction`; the value handed over is sometimes fractional or larger than 1
     ev.direction = float(e.get("pydir", e["dir"]))
     return ev
@@ -133,6 +135,8 @@ def fmt_result(res, case, out, nstate):
         for v in res.y_events:
             if isinstance(v, list) and len(v) == 0:
                 parts.append("[]")
+            elif isinstance(v, np.ndarray) and v.shape == (0,):
+                parts.append("e0")
             else:
                 a = np.asarray(v)
                 parts.append("%dx%d:%s" % (a.shape[0], a.shape[1], hxs(np.ascontiguousarray(a).ravel())))
@@ -153,6 +157,8 @@ def fmt_result(res, case, out, nstate):
     if not why and res.t_events is not None:
         for te, ye in zip(res.t_events, res.y_events):
             if len(te) != len(ye): why = "t_events / y_events lengths differ"
+            # SciPy hands out arrays for every event function, fired or not (np.asarray([]) for one that never fired)
+            elif not isinstance(te, np.ndarray) or not isinstance(ye, np.ndarray): why = "t_events / y_events entry of type %s / %s instead of ndarray" % (type(te).__name__, type(ye).__name__)
             elif len(te) and np.asarray(ye).shape != (len(te), nstate): why = "y_events entry has shape %s" % (np.asarray(ye).shape,)
         # row j of y_events[i] is the state at t_events[i][j]: the event function vanishes there (to root-finder accuracy),
         # and with dense output the row is what sol returns for that time
